@@ -215,6 +215,7 @@ def run_search(repo: Repo, res: Result) -> None:
                     where(fi, e.call),
                     kind="dominance",
                 )
+            n += _exempt_sets_exact(repo, res, m, subj, own, exc, rec)
             # the subject set skips exactly itself when accumulating the excluded set
             for st in m.subtree_sites:
                 if st.collection is None or st.target not in exc:
@@ -233,6 +234,103 @@ def run_search(repo: Repo, res: Result) -> None:
     # vacuity is excluded per search by the role requirements above (models() demands all four searches, every explicit / other
     # search must record inside its neighbour iteration, explicit / sub-module searches must push); the floor is a backstop
     res.floor("C01.S", 12, n)
+
+
+def _set_mutations(m: S.SearchModel, name: str) -> list[tuple[ast.AST, str, list[ast.AST]]]:
+    """[(node, grow | shrink | other, element expressions)] for every statement of the view that changes the node set `name`."""
+    out: list[tuple[ast.AST, str, list[ast.AST]]] = []
+    for n in ast.walk(m.fi.node):
+        if isinstance(n, ast.Call) and isinstance(n.func, ast.Attribute) and isinstance(n.func.value, ast.Name) and n.func.value.id == name:
+            a = n.func.attr
+            if a in ("add", "update", "append", "extend"):
+                out.append((n, "grow", list(n.args)))
+            elif a in ("remove", "discard", "difference_update"):
+                out.append((n, "shrink", list(n.args)))
+            elif a in ("clear", "pop", "intersection_update", "symmetric_difference_update"):
+                out.append((n, "other", list(n.args)))
+        elif isinstance(n, ast.AugAssign) and isinstance(n.target, ast.Name) and n.target.id == name:
+            out.append((n, "grow" if isinstance(n.op, (ast.BitOr, ast.Add)) else "shrink" if isinstance(n.op, ast.Sub) else "other", [n.value]))
+        elif isinstance(n, ast.Assign) and any(isinstance(t, ast.Name) and t.id == name for t in n.targets):
+            out.append((n, "bind", [n.value]))
+        elif isinstance(n, ast.AnnAssign) and isinstance(n.target, ast.Name) and n.target.id == name and n.value is not None:
+            out.append((n, "bind", [n.value]))
+    return out
+
+
+def _exempt_sets_exact(repo: Repo, res: Result, m: S.SearchModel, subj: str, own: list[str], exc: list[str], rec: list) -> int:
+    """'Something else' is everything outside the subject and the named objects - and nothing but that: the node sets whose
+    members are not reported hold the subject's sub-tree / the objects' sub-trees (up to the documented adjustment for
+    'sub modules of' filters) and nothing else, and an import edge to a node outside them is recorded.
+
+    [exempt set]  every statement that changes one of the two sets is the sub-tree lookup itself, the adjustment by the
+                  identifier of a 'sub modules of' filter - or it puts in / takes out other nodes (VIOLATION when those are computed
+                  from module names alone, e.g. the ancestors of the subject; undecided when the model cannot see where they come from)
+    [nothing else exempt]  under (import edge, neighbour not in the subject's sub-tree, neighbour not in the objects) the pair is recorded"""
+    fi = m.fi
+    n = 0
+    single = S._single_assignments(fi.node)
+    for name in own + exc:
+        what_for = f"the subject's sub-tree {S.SUBMODULES}(graph, {subj})" if name in own else "the sub-trees of the named objects"
+        for node, kind, elts in _set_mutations(m, name):
+            st = stmt_of(node)
+            if any((stmt_of(site.call) is st or any(f is st for f in site.fills)) and site.target == name for site in m.subtree_sites):
+                continue  # the sub-tree lookup that fills the set
+            if kind == "bind" and all(S._is_empty_collection(e) for e in elts):
+                continue
+            ops = [op for op in m.set_ops if op.node is node]
+            if ops and all(op.what.endswith("." + S.NODE_ATTR) for op in ops):
+                continue  # judged as [sub-tree adjustment]
+            if kind == "bind":
+                # a set computed from the sub-tree set itself (`S = S - {..}`): the parts taken out / put in are judged as set operations
+                if any(isinstance(x, ast.Name) and x.id == name for e in elts for x in ast.walk(e)) or any(S._is_base_of(site.call, e) for site in m.subtree_sites for e in elts):
+                    continue
+            n += 1
+            key = repo.key(fi, st) + " [exempt set]"
+            prov: set[str] = set()
+            for e in elts:
+                prov |= S.provenance(m, e)
+            verb = {"grow": "puts nodes into", "shrink": "takes nodes out of"}.get(kind, "changes")
+            if kind in ("grow", "shrink") and S.names_only(prov):
+                effect = "imports of these modules are no longer reported as 'something else'" if kind == "grow" else ("imports that stay inside the subject are reported as 'something else'" if name in own else "imports of a named object are reported as 'something else'")
+                res.add(
+                    "C01.S", key, False,
+                    f"`{norm(node)}` {verb} `{name}`, the set holding {what_for}, nodes that are computed from module names alone ({', '.join(sorted(prov))}) and not looked up as sub modules in the graph: "
+                    f"{effect} (only imports that stay inside the subject and imports of the named objects are exempt; an ancestor or a sibling of the subject is something else)",
+                    where(fi, node), kind="dominance",
+                )
+            elif kind in ("grow", "shrink") and prov == {"subtree"} and name in own and all(site.param == subj for site in m.subtree_sites if any(site.call is x for e in elts for x in ast.walk(e))):
+                n -= 1  # the subject's own sub-tree once more
+            else:
+                res.undecide("C01.S", key, f"`{norm(node)}` {verb} `{name}`, the set holding {what_for}, and the model cannot tell which nodes ({', '.join(sorted(prov)) or 'no source found'})", where(fi, node))
+    # converse of [something else]: nothing but the two sets keeps an import edge from being recorded
+    for it in m.neighbour_iters:
+        evs = [e for e in rec if e.nvar == it.var and (S._inside_body(e.elt if e.elt is not None else e.call, it.node) if it.gen is None else S._inside_gen(e.elt if e.elt is not None else e.call, it.node, it.gen)) or (e.nvar == it.var and len(m.neighbour_iters) == 1)]
+        if not evs:
+            continue
+        head = it.node if it.gen is None else it.node.generators[it.gen].iter
+        reach = m.guard_of(head, it.extra) if it.gen is None else S.conds_formula(S.all_conds(fi, head) + list(it.extra), m.subst)
+        H = m.hier(it.var)
+        outside = f_and([reach, f_not(H)] + [f_not(atom(f"{it.var} in {x}")) for x in own + exc])
+        recorded = f_or([e.guard for e in evs])
+        n += 1
+        key = repo.key(fi, stmt_of(evs[0].call)) + " [nothing else exempt]"
+        if implies(outside, recorded):
+            res.add("C01.S", key, True, "every import edge that leaves the subject and does not end in a named object is recorded", where(fi, evs[0].call), kind="dominance")
+            continue
+        known = atoms_of(outside)
+        extra = sorted(a for a in atoms_of(recorded) if a not in known)
+        sets = [a[len(it.var) + 4:] for a in extra if a.startswith(f"{it.var} in ")]
+        culprit = next((x for x in sets if x.isidentifier() and x not in m.visited_sets and S.names_only(S.provenance(m, ast.Name(id=x, ctx=ast.Load())))), None)
+        if culprit is not None:
+            res.add(
+                "C01.S", key, False,
+                f"an import edge to a node outside the subject's sub-tree `{own[0]}` and outside the objects `{exc[0]}` is still not recorded when the node is in `{culprit}`, a set computed from module names alone: "
+                f"more than the subject and the named objects is exempt from 'something else'",
+                where(fi, evs[0].call), kind="dominance",
+            )
+        else:
+            res.undecide("C01.S", key, f"whether an import edge leaving the subject is recorded also depends on {extra or [e.guard_text for e in evs]}, which the model cannot relate to the subject's sub-tree or the named objects", where(fi, evs[0].call))
+    return n
 
 
 def run_lookup(repo: Repo, res: Result, rule_id: str = "C13.R6") -> int:
